@@ -1,9 +1,12 @@
 CONSTANTS
   MaxCmds = 3
-  MaxPending = 3
-  MaxNum = 2
+  MaxPending = 2
+  MaxNum = 1
   MaxItems = 1
-  Kinds = {"SELECT", "IDLE", "CLOSE", "UNAUTH", "LOGIN", "NOOP", "EXPUNGE", "FETCH"}
+  MaxUid = 1
+  MaxCode = 1
+  NFlagSets = 1
+  Kinds = {"SELECT", "FETCH", "STORE", "UIDFETCH"}
   Greetings = {"PREAUTH"}
 INIT Init
 NEXT Next
